@@ -614,22 +614,23 @@ package bus
 //@ func (p *proxyObject) UnregisterEvent(objectID uint32, actionID uint32, handler uint64) (err error)
 //@   trusted
 //@   modifies everything
+// (also C14: property change events reach subscribers through the same registration bookkeeping)
 //@ func (p proxy) SubscribeID(action uint32) (cancelfn func(), events chan []byte, err error)
-//@   tags C13
+//@   tags C13 C14
 //@   requires p.client != nil
 //@   modifies everything
-//@   call RegisterEvent#1: assert[C13] subscriptions == 1 && arg0 == p.object && arg1 == action && arg2 == uint64(handler)
-//@   call State#2: assert[C13] subscriptions == 1 && arg1 == handler
+//@   call RegisterEvent#1: assert[C13,C14] subscriptions == 1 && arg0 == p.object && arg1 == action && arg2 == uint64(handler)
+//@   call State#2: assert[C13,C14] subscriptions == 1 && arg1 == handler
 // the reference count and the stored handler id are kept per (service, object, action)
 //@   call Sprintf#1: assert[C13] len(arg1) == 3 && unbox(arg1[0], uint32) == p.service && unbox(arg1[1], uint32) == p.object && unbox(arg1[2], uint32) == action
 //@   call Sprintf#2: assert[C13] len(arg1) == 3 && unbox(arg1[0], uint32) == p.service && unbox(arg1[1], uint32) == p.object && unbox(arg1[2], uint32) == action
 //@ func (p proxy) SubscribeID$1()
-//@   tags C13
+//@   tags C13 C14
 //@   requires p.client != nil && cancel != nil
 //@   modifies everything
-//@   call UnregisterEvent#1: assert[C13] subscriptions == 0 && arg0 == p.object && arg1 == action && arg2 == uint64(handler)
-//@   call State#2: assert[C13] subscriptions == 0 && arg1 == 0
-//@   call State#3: assert[C13] arg1 == int(0 - handler)
+//@   call UnregisterEvent#1: assert[C13,C14] subscriptions == 0 && arg0 == p.object && arg1 == action && arg2 == uint64(handler)
+//@   call State#2: assert[C13,C14] subscriptions == 0 && arg1 == 0
+//@   call State#3: assert[C13,C14] arg1 == int(0 - handler)
 //@   call Sprintf#1: assert[C13] len(arg1) == 3 && unbox(arg1[2], uint32) == action
 //@   call Sprintf#2: assert[C13] len(arg1) == 3 && unbox(arg1[2], uint32) == action
 //@   call Sprintf#3: assert[C13] len(arg1) == 3 && unbox(arg1[2], uint32) == action
